@@ -66,12 +66,20 @@ PlanRec(n) ==
   IN [k |-> "sqrtin", kind |-> CaseOf(i).kind, case |-> i,
       num |-> CASE p = 1 -> FMul(x, v) [] p = 2 -> x [] p = 3 -> NOne,
       den |-> CASE p = 1 -> v [] p = 2 -> NOne [] p = 3 -> FInv(x)]
+\* ratios whose discrete log is a boundary value of the whole 47-bit range (all digits all-ones etc.)
+SpecialDlogs == << NSub(TwoN, NFromNat(1)), NSub(TwoN, NFromNat(2)), NPow2(TwoAdicity - 1), NSub(NPow2(TwoAdicity - 1), NFromNat(1)),
+                   NFromNat(1), NFromNat(2), NFromNat(255), NFromNat(256), NSub(NPow2(39), NFromNat(1)), NSub(TwoN, NPow2(39)) >>
+SpecialRecs == FlattenSeq([i \in 1..Len(SpecialDlogs) |->
+   LET x == FMul(NPowMod(G, ExpForDlog(SpecialDlogs[i]), P), OddPart(W(i + 3))) v == W(i + 9) IN
+   << [k |-> "sqrtin", kind |-> "dlogspecial", case |-> 0, num |-> FMul(x, v), den |-> v],
+      [k |-> "sqrtin", kind |-> "dlogspecial", case |-> 0, num |-> x, den |-> NOne],
+      [k |-> "sqrtin", kind |-> "dlogspecial", case |-> 0, num |-> NOne, den |-> FInv(x)] >>])
 ZeroRecs == << [k |-> "sqrtin", kind |-> "zero", case |-> 0, num |-> NZero, den |-> NZero],
                [k |-> "sqrtin", kind |-> "zero", case |-> 0, num |-> NZero, den |-> W(1)],
                [k |-> "sqrtin", kind |-> "zero", case |-> 0, num |-> W(2), den |-> NZero],
                [k |-> "sqrtin", kind |-> "one", case |-> 0, num |-> W(3), den |-> W(3)],
                [k |-> "sqrtin", kind |-> "one", case |-> 0, num |-> NOne, den |-> NOne] >>
-Plan == ZeroRecs \o [j \in 1..(3 * NCases) |-> PlanRec(j)]
+Plan == ZeroRecs \o SpecialRecs \o [j \in 1..(3 * NCases) |-> PlanRec(j)]
 ASSUME NMod(NMul(TraceT, TraceInv), TwoN) = NMod(NFromNat(1), TwoN)
 \* the dlog construction is right: x^t * g^t' = 1 for a sample target
 ASSUME LET t == TargetsC[300] IN FMul(NPowMod(NPowMod(G, ExpForDlog(t), P), TraceT, P), NPowMod(G, t, P)) = NOne
